@@ -1155,6 +1155,17 @@ class Evaluator(object):
                 return tm.unk("attr:%s.%s" % (q, name))
         if base.op == "ext":
             return tm.ext(base.a[0] + "." + name)
+        # field of a private namedtuple: the component at the field's position
+        classes, fields = _namedtuples(self.P)
+        idx = fields.get(name)
+        if idx is not None and len(idx) == 1 and name not in _ARRAY_ATTRS:
+            k = next(iter(idx))
+            if base.op == "tuple" and k < len(base.a) and not any(z.op == "star" for z in base.a):
+                return base.a[k]
+            if base.op == "sub" and base.a[0].op == "comp" and base.a[0].a[1].op == "tuple":
+                return tm.sub(base, tm.const(k))
+            if self._tuple_parts(base) is not None or base.op in ("ite", "iter") or (base.op == "call" and base.a[0].op in ("func", "localfunc")):
+                return tm.proj(base, k) if base.op != "ite" else tm.sub(base, tm.const(k))
         return tm.attr(base, name)
 
     def ev_Subscript(self, node, env):
@@ -1392,6 +1403,13 @@ class Evaluator(object):
             fn = args[0]
             args = args[1:]
         args, kw = self.canonical_args(fn, args, kw)
+        if fn is not None and fn.op == "glob" and fn.a[0] in _namedtuples(self.P)[0] and not any(a_.op == "star" for a_ in args) and not any(k_ == "**" for k_, _ in kw):
+            # _Result(a, b) / _Result(x=a, y=b) of a private namedtuple is the tuple (a, b)
+            fl = _namedtuples(self.P)[0][fn.a[0]]
+            vals = dict(zip(fl, args))
+            vals.update({k_: v_ for k_, v_ in kw})
+            if len(args) <= len(fl) and set(vals) == set(fl):
+                return tm.tup([vals[f_] for f_ in fl])
         if fn is not None and tm.callee_name(fn) == "builtins.map" and len(args) == 2 and not kw and args[0].op in ("builtin", "func", "localfunc", "ext"):
             # map(f, it) is (f(x) for x in it)
             self.ncomps += 1
@@ -1574,7 +1592,9 @@ class Evaluator(object):
         if fn is None or fn.op not in ("func", "localfunc"):
             return None
         q = fn.a[0]
-        if q in KNOWN_FUNCS or not self.P.has_func(q):
+        if not self.P.has_func(q):
+            return None
+        if q in KNOWN_FUNCS and not _resigned(self.P, q):
             return None
         if len(self.inline_frames) >= 3 or any(getattr(fr, "qual", None) == q for fr in self.inline_frames):
             return None
@@ -1710,6 +1730,53 @@ class Evaluator(object):
             bind = dict(zip(fn.a[0], args))
             return tm.rebuild(fn.a[1], lambda x: bind.get(x.a[0]) if x.op == "lparam" else None)
         return tm.call(fn, args, kw)
+
+
+_ARRAY_ATTRS = {"shape", "size", "ndim", "T", "dtype", "real", "imag", "flat", "data", "count", "index", "start", "stop", "step", "args", "message"}
+
+
+def _namedtuple_fields(node):
+    """field names of `collections.namedtuple("X", [...])` / `namedtuple("X", "a b")`, else None"""
+    if not isinstance(node, ast.Call) or len(node.args) < 2 or node.keywords:
+        return None
+    fn = node.func
+    nm = fn.attr if isinstance(fn, ast.Attribute) else (fn.id if isinstance(fn, ast.Name) else None)
+    if nm != "namedtuple":
+        return None
+    a = node.args[1]
+    if isinstance(a, ast.Constant) and isinstance(a.value, str):
+        return a.value.replace(",", " ").split()
+    if isinstance(a, (ast.List, ast.Tuple)) and all(isinstance(e, ast.Constant) and isinstance(e.value, str) for e in a.elts):
+        return [e.value for e in a.elts]
+    return None
+
+
+def _namedtuples(P):
+    """({"mod.Name": [fields]}, {field: {positions}}) over the whole program"""
+    got = getattr(P, "_namedtuples", None)
+    if got is None:
+        classes, fields = {}, {}
+        for m in P.modules.values():
+            for name, node in m.const_nodes.items():
+                fl = _namedtuple_fields(node)
+                if fl is not None:
+                    classes["%s.%s" % (m.name, name)] = fl
+                    for i, f_ in enumerate(fl):
+                        fields.setdefault(f_, set()).add(i)
+        got = (classes, fields)
+        P._namedtuples = got
+    return got
+
+
+def _resigned(P, q):
+    """a private helper of the inventory whose parameter list is no longer the recorded one"""
+    from .known import KNOWN_SIGNATURES
+
+    want = KNOWN_SIGNATURES.get(q)
+    if want is None or not P.has_func(q):
+        return False
+    g = P.func(q)
+    return list(g.params) + ["*" + k for k in getattr(g, "kwonly", [])] != want
 
 
 _NOLIT = object()
